@@ -763,6 +763,10 @@ def check_pow10_table(cx, res):
 OVERFLOW_CANDIDATES = [b"1e400", b"18e308", b"2e308", b"1.8e308", b"-2e308", b"179769313486231580793e289", b"1e309"]
 
 
+TINY_CANDIDATES = [b"2.22507385850720138e-308", b"4.9406564584124654e-324", b"1e-320", b"123456789012345678e-340",
+                   b"1.5e-310", b"1e-400", b"0.0e-400", b"7e-324", b"1e308", b"1e-308", b"12345e300"]
+
+
 def replay_candidates(res, fast, cands):
     """Try concrete literals through the real parser until one disagrees with the reference."""
     def f(m):
@@ -860,12 +864,25 @@ def claim_f64_fast_finite(cx, res, kf):
         if t.kind == "PANIC":
             res.must_be_unsat(pc, "reachable panic `%s`" % t.info["msg"])
             continue
+        from .symex import FP_UF
+        hb, rec = last_in(st)
+        fin, ein = rec["f"].e, rec["exponent"].e
+        absx = z3.If(ein < 0, -ein, ein)
+        hit = z3.ULT(z3.ZeroExt(32, absx), bv(n))
+        tk = z3.fpBVToFP(z3.Select(arr, z3.ZeroExt(32, absx)), z3.Float64())
         if t.kind == "LOOP_BACK":
             seen["back"] += 1
             f2 = st.frames[-1].locals[loc["f"]].e
+            e2 = st.frames[-1].locals[loc["exponent"]].e
             collect_uf(f2, acc)
             res.must_be_unsat(pc + facts + ieee_axioms(acc["fmul"], acc["fdiv"]) + [z3.Not(inv(f2))],
                               "scaling loop breaks the finiteness invariant")
+            # the step keeps the denoted value f * 10^exponent: f' = f / 1e308, exponent' = exponent + 308, and it is
+            # only taken for a non-zero f with a negative exponent beyond the table
+            step = z3.And(z3.Not(hit), ein < 0, z3.Not(z3.fpIsZero(fin)), e2 == ein + 308,
+                          f2 == FP_UF["Div"](fin, z3.FPVal(1e308, z3.Float64())))
+            res.must_be_unsat(pc + [z3.Not(step)], "scaling step does not preserve f * 10^exponent",
+                              replay_candidates(res, True, TINY_CANDIDATES))
             continue
         kind, payload = K.classify_return(eng, t)
         if kind == "ok":
@@ -874,6 +891,11 @@ def claim_f64_fast_finite(cx, res, kf):
             collect_uf(v, acc)
             res.must_be_unsat(pc + facts + ieee_axioms(acc["fmul"], acc["fdiv"]) + [z3.Or(z3.fpIsInf(v), z3.fpIsNaN(v))],
                               "float conversion can return inf/NaN", replay_candidates(res, True, OVERFLOW_CANDIDATES))
+            # the result is derived from the loop state: f (*|/) POW10[|exponent|] on a table hit, f itself (== 0) on a miss
+            mag = z3.If(hit, z3.If(ein >= 0, FP_UF["Mul"](fin, tk), FP_UF["Div"](fin, tk)), fin)
+            derived = z3.And(z3.If(info["pos"], v == mag, v == z3.fpNeg(mag)), z3.Or(hit, z3.fpIsZero(fin)))
+            res.must_be_unsat(pc + [z3.Not(derived)], "result is not f (*|/) POW10[|exponent|] of the current loop state "
+                              "(a non-zero magnitude is replaced or dropped)", replay_candidates(res, True, TINY_CANDIDATES))
             continue
         if kind == "err" and K.code_name(eng, K.err_code_index(eng, payload)) == "NumberOutOfRange":
             seen["range"] += 1
